@@ -83,8 +83,19 @@ func VerifHarness_C13_sync_step() {
 	bcR.BaseReactor = *p2p.NewBaseReactor("BlockchainReactor", &vNop13{})
 	bcR.BaseReactor.Start()
 	// exactly what angine installs for pbft: verify against the validator set the live state holds NOW
+	// while the commit is being verified the serving peer may be dropped and the request refilled by
+	// another peer with a DIFFERENT block for the same height: what gets executed must still be the
+	// block that was verified
+	refill := vNondetBool("request-refilled-during-verification")
+	forged := vBlock13(H, 0xF, &types.Commit{})
 	bcR.SetBlockVerifier(func(bID types.BlockID, h int64, lc *types.Commit) error {
-		return state.validators.VerifyCommit(state.chainID, bID, h, lc)
+		err := state.validators.VerifyCommit(state.chainID, bID, h, lc)
+		if refill {
+			if r := bcR.pool.requesters[H]; r != nil {
+				r.block = forged
+			}
+		}
+		return err
 	})
 	bcR.SetBlockExecuter(func(blk *types.Block, pst *types.PartSet, c *types.Commit) error {
 		executed = append(executed, blk)
